@@ -15,7 +15,7 @@ Definition ast_sub (x : msub) : qn := match x with SubE e => ast_expr e | SubS s
 Fixpoint subs_expr (e : mexpr) : list msub :=
   SubE e ::
   match e with
-  | MCol _ _ | MStar _ | MLit _ _ => []
+  | MCol _ _ | MStar _ | MLit _ _ | MNiladic _ => []
   | MBin _ l r => subs_expr l ++ subs_expr r
   | MUn _ x => subs_expr x
   | MFunc _ args => subs_exprs args
